@@ -300,6 +300,54 @@ func (eng *Engine) compileClosedEx(ax *Axiom, goal bool) (*Term, *Exec, error) {
 	if body == t {
 		return t, ex, nil
 	}
+	// a heap array that is only ever read at one (syntactic) object, select(H, b), is further generalised to that
+	// object's own contents: the statement then applies whatever term denotes those contents
+	for _, hb := range bound {
+		if hb.Sort.Kind != SArray || hb.Sort.Elem.Kind != SArray {
+			continue
+		}
+		var sel *Term
+		ok := true
+		seen := map[*Term]bool{}
+		var walk func(x *Term)
+		walk = func(x *Term) {
+			if seen[x] || !ok {
+				return
+			}
+			seen[x] = true
+			if x.Op == "select" && x.Args[0] == hb {
+				if sel == nil {
+					sel = x
+				} else if sel != x {
+					ok = false
+				}
+				walk(x.Args[1])
+				return
+			}
+			if x == hb {
+				ok = false
+				return
+			}
+			for _, a := range x.Args {
+				walk(a)
+			}
+			for _, p := range x.Pats {
+				for _, y := range p {
+					walk(y)
+				}
+			}
+		}
+		walk(body)
+		if ok && sel != nil {
+			nb := BoundVar("obj."+hb.Name, hb.Sort.Elem)
+			body = Subst(body, map[*Term]*Term{sel: nb})
+			for i := range bound {
+				if bound[i] == hb {
+					bound[i] = nb
+				}
+			}
+		}
+	}
 	if body.Op == "forall" {
 		all := append(append([]*Term{}, bound...), body.Bound...)
 		inner := body.Args[0]
